@@ -2,7 +2,7 @@
 import re
 
 from hir import (
-    diverges, nodes, walk, norm_path, last, pat_alternatives, pat_variant, pat_fields, pat_bindings, pat_strip,
+    diverges, is_err_exit, nodes, walk, norm_path, last, pat_alternatives, pat_variant, pat_fields, pat_bindings, pat_strip,
     pat_is_catchall, callee, call_args, fn_body, line_of, peel,
 )
 from flow import Flow
@@ -86,8 +86,10 @@ class Visit:
         self.struct_children = struct_children or {}
         self.wildcard_ok = wildcard_ok or {}
         self.is_leaf = is_leaf or (lambda v, f, t: False)
+        self.strict = True
         self.arms_seen = 0
         self.children_checked = 0
+        self.conditional = set()
 
     def is_fold_call(self, n):
         c = callee(n)
@@ -176,6 +178,13 @@ class Visit:
                             if any(Flow.mentions(a, derived) for a in call_args(c)):
                                 ok = True
                                 break
+                        if ok and self.strict:
+                            ok2 = must_visit(arm["body"], derived, self.is_fold_call)
+                            if not ok2:
+                                self.rep.ob(self.rule, key, False,
+                                            "child `%s` of %s reaches the fold in %s only on some paths (the visit is conditional on "
+                                            "something other than the child itself)" % (fname_, vname, fname), line_of(arm))
+                                continue
                         self.rep.ob(self.rule, key, ok,
                                     ("child `%s` of %s reaches the fold in %s" if ok else
                                      "child `%s` of %s is bound but never passed to a fold function in %s")
@@ -192,8 +201,11 @@ class Visit:
                     self.rep.ob(self.rule, key, True, "exempt: " + ex)
                     continue
                 ok = f in uses
+                cond = (last(sp), f) in self.conditional
                 self.rep.ob(self.rule, key, ok,
                             ("field `%s` of %s reaches the fold in %s" if ok else
+                             "field `%s` of %s reaches a fold function in %s only on some paths (conditional on something other than the "
+                             "field itself, e.g. on a sibling being present)" if cond else
                              "field `%s` of %s never reaches a fold function in %s") % (f, last(sp), fname),
                             fn["sp"])
 
@@ -209,7 +221,17 @@ class Visit:
                     seen = True
                     derived = fl.derived({hid})
                     if any(Flow.mentions(a, derived) for c in fold_calls for a in call_args(c)):
-                        out.add(el[2])
+                        scope = None
+                        if o["kind"] == "closure":
+                            scope = o["node"]["body"]
+                        elif o["kind"] == "for":
+                            scope = o["node"]["body"]
+                        elif o["kind"] == "arm":
+                            scope = o["arm"]["body"]
+                        if scope is None or not self.strict or must_visit(scope, derived, self.is_fold_call):
+                            out.add(el[2])
+                        else:
+                            self.conditional.add((last(sp), el[2]))
         # field projections  x.f  with x: sp
         for n, parents in walk(body):
             if n.get("k") == "Field" and ty_is(n.get("base_ty", ""), sp):
@@ -226,6 +248,77 @@ class Visit:
                         if any(Flow.mentions(a, derived) for c in fold_calls for a in call_args(c)):
                             out.add(n["name"])
         return out if seen else None
+
+
+def must_visit(n, derived, is_fold_call, depth=0):
+    """does evaluating n necessarily hand (something derived from) the child to a fold function?
+    if/match count only when every non-diverging branch does; a closure counts when it is passed to an adaptor over a
+    collection / iterator (it runs for every element) or over an Option that itself derives from the child; a closure
+    over an Option of *another* value makes the visit conditional on that other value"""
+    if n is None or not isinstance(n, dict) or depth > 60:
+        return False
+    k = n.get("k")
+    if k in ("Call", "MethodCall") and is_fold_call(n) and any(Flow.mentions(a, derived) for a in call_args(n)):
+        return True
+    if k == "If":
+        if must_visit(n["c"], derived, is_fold_call, depth + 1):
+            return True
+        c = peel(n["c"])
+        if c.get("k") == "LetCond" and Flow.mentions(c["init"], derived) and not _mentions_other(c["init"], derived):
+            # `if let Some(x) = <this child>`: visiting inside is the visit of the (optional) child itself
+            return must_visit(n["t"], derived, is_fold_call, depth + 1)
+        if is_err_exit(n["t"]):
+            return n.get("e") is not None and must_visit(n["e"], derived, is_fold_call, depth + 1)
+        if n.get("e") is not None and is_err_exit(n["e"]):
+            return must_visit(n["t"], derived, is_fold_call, depth + 1)
+        return n.get("e") is not None and must_visit(n["t"], derived, is_fold_call, depth + 1) and \
+            must_visit(n["e"], derived, is_fold_call, depth + 1)
+    if k == "Match":
+        if must_visit(n["scrut"], derived, is_fold_call, depth + 1):
+            return True
+        arms = [a for a in n["arms"] if not diverges(a["body"]) and not is_err_exit(a["body"])]
+        if Flow.mentions(n["scrut"], derived) and not _mentions_other(n["scrut"], derived):
+            # a case split on the child itself (Some/None, Ok/Err of the child's own result): any arm suffices
+            return any(must_visit(a["body"], derived, is_fold_call, depth + 1) for a in arms)
+        return bool(arms) and all(must_visit(a["body"], derived, is_fold_call, depth + 1) for a in arms)
+    if k == "MethodCall":
+        if must_visit(n["recv"], derived, is_fold_call, depth + 1):
+            return True
+        clos = [a for a in n["args"] if a.get("k") == "Closure"]
+        rt = strip_ty(n.get("recv_ty", ""))
+        for a in n["args"]:
+            if a.get("k") == "Closure":
+                if rt.startswith("core::option::Option<") or rt.startswith("core::result::Result<"):
+                    # Option::map(|x| ..): runs only if the receiver is Some
+                    if Flow.mentions(n["recv"], derived) and must_visit(a["body"], derived, is_fold_call, depth + 1):
+                        return True
+                elif must_visit(a["body"], derived, is_fold_call, depth + 1):
+                    return True
+            elif must_visit(a, derived, is_fold_call, depth + 1):
+                return True
+        return False
+    if k == "Closure":
+        return False
+    if k == "ForLoop":
+        return must_visit(n["iter"], derived, is_fold_call, depth + 1) or must_visit(n["body"], derived, is_fold_call, depth + 1)
+    if k in ("While", "Loop"):
+        return False
+    if k == "Binary" and n.get("op") in ("And", "Or"):
+        return must_visit(n["l"], derived, is_fold_call, depth + 1)
+    if k is None and "pat" in n and "body" in n:
+        return False
+    from hir import children
+    for c in children(n):
+        if isinstance(c, dict) and must_visit(c, derived, is_fold_call, depth + 1):
+            return True
+    return False
+
+
+def _mentions_other(e, derived):
+    for x in nodes(e, "Path"):
+        if x.get("res") == "Local" and x["hid"] not in derived and x.get("name") not in ("self",):
+            return True
+    return False
 
 
 def _inside(arm, node):
